@@ -1,6 +1,6 @@
 (* C16 - Parameter, header and items validators follow Swagger simple-schema semantics. *)
 From Coq Require Import List ZArith Bool QArith Lia.
-From Verif Require Import Base.Sx Base.GoVal Base.F64 Schema.Ast Schema.Pipeline Schema.Draft4 Schema.Simple Schema.SimpleFacts Schema.AgreementData Schema.AgreementDec Schema.AgreementFlocq Schema.SimpleAgree Schema.SimpleAgreeDec Schema.Numeric Schema.SimpleCarrier Schema.SimpleCarrierDec.
+From Verif Require Import Base.Sx Base.GoVal Base.F64 Schema.Ast Schema.Pipeline Schema.Draft4 Schema.Simple Schema.SimpleFacts Schema.AgreementData Schema.AgreementDec Schema.AgreementFlocq Schema.SimpleAgree Schema.SimpleAgreeDec Schema.Numeric Schema.SimpleCarrier Schema.SimpleCarrierDec Base.F64Exact Schema.NumericFlocq.
 Import ListNotations.
 Open Scope Z_scope.
 
@@ -109,13 +109,13 @@ Proof. vm_compute. repeat split. Qed.
 (* ---- typed values: what generated server code hands over after binding (int8 .. uint64, float32, typed slices) ----
    A typed value is read as the JSON value it carries ([as_json]: an integer as the number it is, a float32 widened, a
    typed slice as an array).  For every numeric implementation that is exact on the numbers involved - the interface of
-   C13 ([exact_iface]) plus equality, the integer test, the conversions back to integers, the float32 range and the
-   divisibility test on small integers ([carrier_iface]) - the verdict on the typed value is the declarative reading of the
-   value it carries: integers within +-2^53 inside their kind; multipleOf on an integer carrier with a fractional factor
-   (signed kinds) or an integral factor with both numbers within +-2^26; arrays holding typed values without enum and
-   uniqueItems at that level (reflect.DeepEqual tells the carriers apart: finding equality-type-sensitive).
-   The binary64 instance the correspondence run executes is not proved to satisfy the two interfaces (that is IEEE 754
-   arithmetic on exactly representable integers; DESIGN section 7): for typed values the theorem is conditional. *)
+   C13 ([exact_iface]) plus equality, the integer test, the conversions back to integers and the float32 range
+   ([carrier_iface]) - the verdict on the typed value is the declarative reading of the value it carries: integers strictly
+   inside +-2^53 and inside their kind; multipleOf on an integer carrier with a fractional factor (signed kinds), with an
+   integral factor that is <= 0 or divides the value, or with any integral factor when the implementation's divisibility test
+   is exact on +-2^26 ([mult_iface], asked for inside [tfits]);
+   arrays holding typed values without enum and uniqueItems at that level (reflect.DeepEqual tells the carriers apart:
+   finding equality-type-sensitive). *)
 Theorem C16_typed_values_agree_with_the_reading_of_the_value_they_carry_partial :
   forall OR N value ok, exact_iface N value ok -> carrier_iface N value ok ->
   forall sr d, qclean OR N ok (q_format (sr_simple sr)) (sr_simple sr) -> tj ok d -> tfits N value ok (sr_simple sr) d ->
@@ -130,28 +130,49 @@ Theorem C16_typed_items_agreement_partial :
 Proof. exact items_agree_t. Qed.
 Print Assumptions C16_typed_items_agreement_partial.
 
-(* the typed class is decidable as well (evaluated on every case of the correspondence run, with ok = finite) *)
+(* the typed class is decidable as well (mi: whether the divisibility clause is available for the implementation) *)
 Theorem C16_typed_fragment_decision_is_sound : forall OR N value ok, exact_iface N value ok ->
-  forall ok_b, (forall f, ok_b f = true -> ok f) -> forall sr fuel d,
-  qclean_b OR N ok_b (q_format (sr_simple sr)) (sr_simple sr) = true -> tj_b ok_b fuel d = true -> tfits_b N ok_b (sr_simple sr) d = true ->
+  forall ok_b, (forall f, ok_b f = true -> ok f) -> forall mi, (mi = true -> mult_iface N value ok) -> forall sr fuel d,
+  qclean_b OR N ok_b (q_format (sr_simple sr)) (sr_simple sr) = true -> tj_b ok_b fuel d = true -> tfits_b N ok_b mi (sr_simple sr) d = true ->
   qclean OR N (finP ok_b) (q_format (sr_simple sr)) (sr_simple sr) /\ tj ok d /\ tfits N value ok (sr_simple sr) d.
 Proof.
-  intros OR N value ok X ok_b Hs sr fuel d H1 H2 H3.
-  split; [apply qclean_b_sound; exact H1|]. split; [apply (tj_b_sound ok ok_b Hs fuel d H2) | apply (tfits_b_sound N value ok X ok_b Hs _ _ H3)].
+  intros OR N value ok X ok_b Hs mi Hmi sr fuel d H1 H2 H3.
+  split; [apply qclean_b_sound; exact H1|]. split; [apply (tj_b_sound ok ok_b Hs fuel d H2) | apply (tfits_b_sound N value ok X ok_b Hs mi Hmi _ _ H3)].
 Qed.
 Print Assumptions C16_typed_fragment_decision_is_sound.
 
-(* non-vacuity: the two interfaces are satisfiable (exact integers), and on them a header {type: array, items: {type:
-   integer, format: int32, maximum: 7, multipleOf: 2}} judges the typed slice []int8{2, 4} like [2, 4] and rejects
-   []int64{2, 9} like [2, 9] *)
-Example C16_interfaces_satisfiable : exact_iface c16_ops inject_Z (fun _ => True) /\ carrier_iface c16_ops inject_Z (fun _ => True).
+(* the instance the correspondence run executes: Flocq binary64 satisfies both interfaces (Schema/NumericFlocq.v), so the
+   agreement on typed values holds of the very model that is run against Go - except for multipleOf with a positive integral
+   factor that does not divide the integer carried (that the division test rejects it is not proved of binary64; decision
+   procedure run with mi = false) *)
+Theorem C16_typed_agreement_for_the_binary64_model : forall OR sr fuel d,
+  qclean_b OR flocq_ops f_finite (q_format (sr_simple sr)) (sr_simple sr) = true -> tj_b f_finite fuel d = true ->
+  tfits_b flocq_ops f_finite false (sr_simple sr) d = true ->
+  exists r, simple_validate OR flocq_ops sr d = Ok (Some r) /\ r_valid r = root_spec OR flocq_ops sr (as_json flocq_ops d).
 Proof.
-  split; constructor; simpl; intros; try reflexivity.
+  intros OR sr fuel d H1 H2 H3.
+  apply (simple_agree_t OR flocq_ops fvalue fok flocq_exact flocq_carrier sr d).
+  - apply qclean_b_sound. exact H1.
+  - apply (tj_b_sound fok f_finite (fun f H => H) fuel d H2).
+  - apply (tfits_b_sound flocq_ops fvalue fok flocq_exact f_finite (fun f H => H) false (fun H => False_ind _ (Bool.diff_false_true H)) _ _ H3).
+Qed.
+Print Assumptions C16_typed_agreement_for_the_binary64_model.
+
+(* non-vacuity: the interfaces are satisfiable with the divisibility clause too (exact integers), and on them a header
+   {type: array, items: {type: integer, format: int32, maximum: 7, multipleOf: 2}} judges the typed slice []int8{2, 4}
+   like [2, 4] and rejects []int64{2, 9} like [2, 9] *)
+Example C16_interfaces_satisfiable :
+  exact_iface c16_ops inject_Z (fun _ => True) /\ carrier_iface c16_ops inject_Z (fun _ => True) /\ mult_iface c16_ops inject_Z (fun _ => True).
+Proof.
+  split; [|split]; [constructor | constructor | unfold mult_iface]; simpl; intros; try reflexivity.
   - rewrite Z.ltb_lt, Zlt_Qlt. tauto.
   - rewrite Z.leb_le, Zle_Qle. tauto.
   - split; [intros E; injection E as ->; reflexivity|intros E; f_equal; unfold Qeq in E; simpl in E; lia].
   - split; [exact I|reflexivity].
   - rewrite Z.eqb_eq. unfold Qeq. simpl. lia.
+  - assert (E : f = g) by (unfold Qeq in *; simpl in *; lia). subst f. split.
+    + intros Hg. apply Z.leb_le in Hg. rewrite Hg. reflexivity.
+    + intros Hg Hd. assert (E : (g <=? 0) = false) by (apply Z.leb_gt; exact Hg). rewrite E, Hd. reflexivity.
   - assert (E : f = g) by (unfold Qeq in *; simpl in *; lia). subst f. reflexivity.
 Qed.
 
@@ -162,9 +183,20 @@ Definition c16_header : sroot :=
 Example C16_typed_fragment_is_inhabited :
   qclean_b c16_oracles c16_ops (fun _ => true) 0 (sr_simple c16_header) = true /\
   tj_b (fun _ => true) 3 (VSlice 3 [VInt KInt8 2; VInt KInt8 4]) = true /\
-  tfits_b c16_ops (fun _ => true) (sr_simple c16_header) (VSlice 3 [VInt KInt8 2; VInt KInt8 4]) = true /\
+  tfits_b c16_ops (fun _ => true) true (sr_simple c16_header) (VSlice 3 [VInt KInt8 2; VInt KInt8 4]) = true /\
   as_json c16_ops (VSlice 3 [VInt KInt8 2; VInt KInt8 4]) = VArr 0 [VFlt false 2; VFlt false 4] /\
   root_spec c16_oracles c16_ops c16_header (as_json c16_ops (VSlice 3 [VInt KInt8 2; VInt KInt8 4])) = true /\
-  tfits_b c16_ops (fun _ => true) (sr_simple c16_header) (VSlice 9 [VInt KInt64 2; VInt KInt64 9]) = true /\
+  tfits_b c16_ops (fun _ => true) true (sr_simple c16_header) (VSlice 9 [VInt KInt64 2; VInt KInt64 9]) = true /\
   root_spec c16_oracles c16_ops c16_header (as_json c16_ops (VSlice 9 [VInt KInt64 2; VInt KInt64 9])) = false.
+Proof. vm_compute. repeat split. Qed.
+
+(* ... and for the binary64 model: a query parameter {type: integer, format: int64, minimum: 3} and the value uint16(7) *)
+Definition c16_min3 : sroot :=
+  {| sr_header := false; sr_name := 42; sr_required := false; sr_allow_empty := false;
+     sr_simple := mkSimple k_integer false k_int64 None [] None None false (Some (f_of_Z 3)) false None None 0 None None false None |}.
+Example C16_typed_binary64_fragment_is_inhabited :
+  qclean_b c16_oracles flocq_ops f_finite k_int64 (sr_simple c16_min3) = true /\
+  tj_b f_finite 2 (VInt KUint16 7) = true /\ tfits_b flocq_ops f_finite false (sr_simple c16_min3) (VInt KUint16 7) = true /\
+  root_spec c16_oracles flocq_ops c16_min3 (as_json flocq_ops (VInt KUint16 7)) = true /\
+  root_spec c16_oracles flocq_ops c16_min3 (as_json flocq_ops (VInt KUint16 2)) = false.
 Proof. vm_compute. repeat split. Qed.
